@@ -44,6 +44,25 @@ class SymMap:
             raise KeyError(k)
         return self.pairs[i][1]
 
+    def get(self, k, default=None):
+        i = self._find(k)
+        return default if i is None else self.pairs[i][1]
+
+    def setdefault(self, k, default=None):
+        i = self._find(k)
+        if i is None:
+            self.pairs.append((k, default))
+            return default
+        return self.pairs[i][1]
+
+    def pop(self, k, *default):
+        i = self._find(k)
+        if i is None:
+            if default:
+                return default[0]
+            raise KeyError(k)
+        return self.pairs.pop(i)[1]
+
     def __setitem__(self, k, v):
         i = self._find(k)
         if i is None:
@@ -210,7 +229,7 @@ def recall_call_sites():
 
 # ----------------------------------------------------------------------------------------------- V1
 @harness('V1', targets=[f'{INV}.ResourceMemories.recall', f'{INV}.ResourceMemories.forget', f'{INV}.ResourceMemories._build_key'],
-         props=['C14'],
+         props=['C14', 'C03', 'C09'],
          clauses=['keyed_by_uid', 'existing_returned_unchanged', 'flag_fixed_at_creation', 'remembered_unless_ephemeral',
                   'forget_removes_only_that_key', 'others_untouched', 'single_writer_fully_handled_once',
                   'noticed_by_listing_never_reassigned'],
@@ -300,7 +319,7 @@ def V1(vc):
 
 
 # ----------------------------------------------------------------------------------------------- V2
-@harness('V2', targets=[f'{INV}.ResourceMemories.recall', f'{INV}.ResourceMemories.recall_memo'], props=['C14'],
+@harness('V2', targets=[f'{INV}.ResourceMemories.recall', f'{INV}.ResourceMemories.recall_memo'], props=['C14', 'C03'],
          clauses=['listed_preexisting_object_is_noticed', 'relisting_changes_nothing', 'call_sites_known'],
          canaries=['canary.always_noticed'],
          trusted=['the keyword expressions `noticed_by_listing=...` (processing.process_resource_event) and '
